@@ -491,7 +491,7 @@ class World:
         if k == "compile":
             env = self.env(op["p"])
             spec = env.spec
-            if spec["kind"] == "router":
+            if spec["kind"] == "router" or spec.get("router"):
                 if env.router is None:
                     return ("skip", "norouter")
             else:
